@@ -164,7 +164,7 @@ def minimise_trace(cfg, case, target, col, budget_s=40):
     def fails(c):
         try:
             _, fs, _, _ = eval_trace(cfg, c)
-        except HarnessError:
+        except Exception:      # a candidate that cannot be evaluated is not a reduction
             return False
         return any((f["clause"], f["key"]) == target for f in fs)
     cur = copy.deepcopy(case)
@@ -281,7 +281,7 @@ def run_core_shard(sh, col):
     def fails(s_):
         try:
             _, f2, _, _ = eval_core(cfg, s_)
-        except HarnessError:
+        except Exception:      # a candidate that cannot be evaluated is not a reduction
             return False
         return any((f["clause"], f["key"]) == target for f in f2)
     stim = ddmin_stim(stim, fails, 40 if tier == "quick" else 120)
